@@ -319,6 +319,15 @@ def run(tier: str) -> int:
         progs.append((sp["name"], sp["sources"]))
     for name, srcs in base.repo_sources():
         progs.append((name, srcs))
+    from . import c13
+
+    progs.append(("multi:fixed", c13.FIXED_MULTI))
+    progs.append(("multi:counter", {"": c13.HDR + "from library import counter\nwhile True:\n    yield_()\n    counter.update()\n",
+                                    "counter": c13.HDR + "\ncount = 0\n\ndef update():\n    global count\n    count = count + 1\n    db.Setting = count\n"}))
+    progs.append(("nested_def", c13.HDR + "def outer():\n    def inner(a):\n        t = a * 2\n        db.Setting = t + a\n    inner(d0.Setting)\n    inner(3)\n\nouter()\n"))
+    for i in range(12 if tier == "thorough" else 4):
+        srcs, _f = c13.gen_multi(harness.seed() * 5003 + i + 1)
+        progs.append((f"multi:{i}", srcs))
     vecs = comp.all_option_vectors()
     items = []
     for i, (name, src) in enumerate(progs):
